@@ -269,6 +269,16 @@ CLAIMED.update({
     ),
 })
 
+CLAIMED.update({
+    "C27": dict(
+        level="other",
+        note="Trusted: CPython ast; C05's kill-on-idle rule (with it, close-once becomes close-last); C04's action model. Not "
+        "decided: cross-thread ordering of notifications (association thread vs provider thread), what user handlers do.",
+        technique="def-use of notification attributes + dominance over hand-built CFGs + per-path trigger counting in the 28 actions + who-writes / who-triggers enumeration (ast)",
+        ref="4/C27",
+    ),
+})
+
 PENDING = "designed in DESIGN.md section 4, checker not built yet - not claimed through a stub"
 
 NOT_APPLICABLE = {
